@@ -229,6 +229,14 @@ impl ResumableSessions {
         self.records.retain(|r| r.fab_idx != fab_idx);
     }
 
+    /// Keep only the records whose fabric index satisfies `keep`.
+    /// Returns `true` if any record was dropped.
+    pub fn retain_fabrics(&mut self, mut keep: impl FnMut(NonZeroU8) -> bool) -> bool {
+        let before = self.records.len();
+        self.records.retain(|r| keep(r.fab_idx));
+        self.records.len() != before
+    }
+
     /// Drop the record identified by peer identity, if any.
     pub fn remove_by_peer(&mut self, fab_idx: NonZeroU8, peer_nodeid: u64) {
         self.records
